@@ -57,6 +57,10 @@ def ok(s, v):
 # ------------------------------------------------------------------------------ builtins
 def _len(E, s, args, kw):
     (v,) = args
+    for hook in E.len_hooks:
+        r = hook(E, s, v)
+        if r is not None:
+            return ok(s, r)
     if isinstance(v, (str, tuple)):
         return ok(s, len(v))
     if isinstance(v, SStr):
@@ -496,6 +500,10 @@ def method(name, fn):
 
 
 def _getattr(E, s, v, attr):
+    for hook in E.value_attr_hooks:
+        r = hook(E, s, v, attr)
+        if r is not None:
+            return r
     if isinstance(v, Ref):
         c = s.cell(v)
         if isinstance(c, ObjCell):
@@ -846,12 +854,18 @@ def str_method(E, s, v, attr):
     def count(E_, s_, a, k):
         if isinstance(v, str) and isinstance(a[0], str):
             return ok(s_, v.count(a[0]))
-        raise Unsupported("str.count on a symbolic string")
+        n = z3.Int(fresh_name("strcount"))
+        s_.assume(z3.And(n >= 0, n <= z3.Length(str_term(v))))
+        s_.notes.append("str.count on a symbolic string is over-approximated by an arbitrary count (pure)")
+        return ok(s_, SInt(n))
 
     def strip(E_, s_, a, k):
         if isinstance(v, str) and all(isinstance(x, str) for x in a):
             return ok(s_, v.strip(*a))
-        raise Unsupported("str.strip on a symbolic string")
+        r = z3.String(fresh_name("stripped"))
+        s_.assume(z3.Length(r) <= z3.Length(str_term(v)))
+        s_.notes.append("str.strip on a symbolic string is over-approximated by an arbitrary shorter string (pure)")
+        return ok(s_, SStr(r))
 
     def isupper(E_, s_, a, k):
         if isinstance(v, str):
